@@ -46,7 +46,7 @@ BOUNDS = {
                 '(5 at w=1)',
 }
 for k in ('quick', 'thorough'):
-    BOUNDS[k] += '; also Bit above the most significant bit, every ordered pair of constant-comparison helpers on one wire, AnyEqual with 11..13 inputs'
+    BOUNDS[k] += '; also Bit above the most significant bit, every ordered pair of constant-comparison helpers on one wire, AnyEqual with 11..13 inputs; n-ary And/Or/Xor/Nor with inputs of different widths (14 width lists of 2..4 inputs of 1..3 bits, result as wide as the widest, narrower, wider)'
 
 
 class Rejected(Exception):
